@@ -244,8 +244,9 @@ package crlstore
 //@   requires S != nil && S.Logger != nil
 //@   assigns X.fs, X.retry
 //@ func createRandomFileName
-//@   props C20
+//@   props C12 C20
 //@   pure
+//@   ensures[C12,C20] temp_directories_carry_the_temp_name: err == nil ==> tempName(baseName(ret))
 //@ func createTempDirWithRetries
 //@   props C20
 //@   requires logger != nil
